@@ -14,6 +14,30 @@ EXN = ["NotifierNotFound"]
 ITEMS = {"kids_items": 13, "m_items": 14, "s_items": 15}
 
 
+def make_root_class(cls, name, content, legacy_name, expr, legacy, obs_handler, post_init):
+    """A subclass of the pool class whose handlers are decorated methods and whose traits_init reads the link
+    `name`, the default of which (a _name_default method) has content."""
+    from traits.api import observe, on_trait_change
+
+    def _legacy_method(self, obj, nm, old, new):
+        legacy(obj, nm, old, new)
+
+    def _observe_method(self, event):
+        obs_handler(event)
+
+    def traits_init(self):
+        getattr(self, name)
+
+    def default(self):
+        return type(content)(content)
+
+    return type("DecoratedRoot", (cls,), {
+        "_legacy_method": on_trait_change(legacy_name)(_legacy_method),
+        "_observe_method": observe(expr, post_init=post_init)(_observe_method),
+        "traits_init": traits_init,
+        "_%s_default" % name: default})
+
+
 def run_case(case):
     w = base.World(case["npool"], bool(case.get("falsy")), bool(case.get("eqcls")), set(case.get("dictkind") or ()))
     hetero = bool(case.get("dictkind"))
@@ -76,16 +100,35 @@ def run_case(case):
                     w.pending = w.next
                     w.pending_field = f + 3
                     w.next += 1
-                root.on_trait_change(legacy, case["legacy"], deferred=deferred)
-                if reentrant is not None:
-                    root.on_trait_change(watcher.second, case["legacy"], deferred=deferred)
-                    st["reg2"] = True
-                root.observe(obs_handler, expr)
+                if op[0] == "RegLazy" and case.get("ctor"):
+                    # both handlers are DECORATED methods of the root's class (the decorator registers with
+                    # deferred=True) and the default of the link is first read INSIDE construction (traits_init)
+                    content = base.LAZY.pop((id(obj), name))
+                    cls = make_root_class(type(obj), name, content, case["legacy"], expr, legacy, obs_handler,
+                                          bool(case["ctor"] - 1))
+                    root = cls()
+                    w.keep = obj             # (kept alive: atoms are keyed by id())
+                    del w.atom[id(obj)]
+                    w.atom[id(root)] = o
+                    w.pool[o] = obj = root
+                    cur = obj.__dict__.get(name)
+                    if w.pending is not None and cur is not None and id(cur) not in w.atom:
+                        w.register(cur)
+                    w.pending = None
+                else:
+                    root.on_trait_change(legacy, case["legacy"], deferred=deferred)
+                    if reentrant is not None:
+                        root.on_trait_change(watcher.second, case["legacy"], deferred=deferred)
+                        st["reg2"] = True
+                    root.observe(obs_handler, expr)
                 if op[0] == "RegLazy":
                     cur = obj.__dict__.get(name)
                     if w.pending is not None and cur is not None and id(cur) not in w.atom:
                         w.register(cur)
                     w.pending = None
+            elif op[0] == "Unreg" and case.get("ctor"):
+                root.on_trait_change(root._legacy_method, case["legacy"], remove=True)
+                root.observe(root._observe_method, expr, remove=True)
             elif op[0] == "Unreg":
                 root.on_trait_change(legacy, case["legacy"], remove=True, deferred=deferred)
                 if st["reg2"] and not st["removed"]:
